@@ -95,6 +95,14 @@ CHECKS = {
             "write: peak RSS must not grow with the size and output must keep up with input.",
             "Extrapolation beyond the largest size by the loop-state-independence argument; per-thread heap accounting.",
             "DESIGN.md §6 C11"),
+    "C14": ("model_checking", "E-GRAPH",
+            "explicit-state breadth-first search over `key generate` command histories (stateright::Model, level-synchronous parallel BFS), every state executed by the real CLI",
+            "States are (initial keyring file state, sequence of <=2 (quick) / <=3 (thorough) `kestrel key generate -o F --env-pass` commands) over 7 initial states (absent, empty, with/without final "
+            "newline, comments and blank lines, non-ASCII comment without final newline, CRLF), 3 names (one non-ASCII, one with a space) and 3 passwords. Each state's last command runs on the memoised "
+            "file of the parent history; the invariant: previous bytes are a prefix, the file parses for the real parser and for REF, every generated key is present, unlocks (REF) under its own "
+            "password to the private key of its PublicKey line, pre-existing entries are kept.",
+            "Real CSPRNG in the CLI: bytes differ between runs, verdicts may not (re-executed once before reporting).",
+            "DESIGN.md §6 C14"),
     "C15": ("exploration", "E-GRID",
             "exhaustive enumeration of (key x password x salt), password pairs, all 672 single-bit changes and string shapes against the REF implementation of the documented locked-key format",
             "lock_private_key/unlock_private_key compiled from the working tree: Rust lock == REF lock byte for byte; round trip both ways between Rust and REF (incl. non-clamped keys); "
@@ -102,6 +110,14 @@ CHECKS = {
             "is rejected or agrees with REF, without panic.",
             "One scrypt per point bounds the grid; HMAC-equivalent password pairs are a recorded known finding.",
             "DESIGN.md §6 C15"),
+    "C16": ("model_checking", "E-GRAPH",
+            "explicit-state breadth-first search over change-pass / extract-pub / use command histories (stateright::Model, level-synchronous parallel BFS), every state executed by the real CLI against a reference model",
+            "States are histories of <=2 (quick) / <=3 (thorough) commands from {change-pass(old,new) for every ordered password pair incl. wrong old password and new == old, extract-pub(w), "
+            "encrypt+decrypt with the key} over 4 (thorough 5) passwords (empty, unicode, trailing space, 70 chars), starting from a given key and from a CLI-generated key. The reference model tracks "
+            "(private key, current password, salts seen); after every command: the newest string unlocks (REF) under the newest password to the original key, earlier different passwords fail, the salt is new, "
+            "wrong-password commands fail and change nothing, extract-pub prints the REF encoding of the public key, the raw private key occurs in no output.",
+            "Real CSPRNG in the CLI (verdict re-checked once); REF implements the documented locked-key format.",
+            "DESIGN.md §6 C16"),
     "C17": ("exploration", "E-GRID",
             "exhaustive enumeration of line-token sequences, decorated lines, line-shape grid, tool-written names and key strings against a reference reading of the keyring format",
             "Every sequence of <=6 (quick) / <=7 (thorough) lines over a 14-token alphabet, every sequence of <=3/4 decorated lines, a single-line shape grid (every ASCII length 0..140 followed by "
